@@ -1753,7 +1753,10 @@ func (s *BgpServer) handleFSMMessage(peer *peer, e *fsmMsg) {
 							err := s.mgmtOperation(func() error {
 								peer.fsm.logger.Info("LLGR restart timer expired", slog.String("Family", family.String()), slog.Any("Duration", t))
 
-								s.dropAdjRIBIn(peer, []bgp.Family{family})
+								// only what is still stale: routes of a re-established session stay
+								dropped := peer.adjRibIn.DropStale([]bgp.Family{family})
+								s.notifyAdjInWithdrawWatcher(peer, dropped)
+								s.propagateUpdate(peer, dropped)
 
 								// when all llgr restart timer expired, stop PeerRestarting
 								if peer.llgrRestartTimerExpired(family) {
